@@ -266,6 +266,22 @@ pub fn m3() -> InputFam {
             v.push((format!("levels {:?}", seq.iter().map(|s| lv[*s]).collect::<Vec<_>>()), f.encode()));
         }
     }
+    // a tilemap layer that names a tileset the file does not hold, with tilemap cels of 0 and more tiles
+    for (fi, fmt) in fmts.iter().enumerate() {
+        for missing in [1u32, 7, 0xFFFF_FFFF] {
+            for (w, h) in [(0u16, 0u16), (0, 4), (4, 0), (1, 1), (2, 2)] {
+                for with_other in [false, true] {
+                    let mut f = simple(fmt, 0, 1);
+                    if with_other {
+                        f.frames[0].push(Body::Tileset(tileset(0, 2, 1, 1, tile_pixels(fmt, 2, 1, 1, 1, ir), "other")));
+                    }
+                    f.frames[0].push(Body::Layer(Layer::tilemap("m", missing)));
+                    f.frames[0].push(tm_cel(0, 0, 0, 255, w, h, vec![0; w as usize * h as usize]));
+                    v.push((format!("fmt{} tilemap layer on missing tileset {} with a {}x{} cel (other tileset present: {})", fi, missing, w, h, with_other), f.encode()));
+                }
+            }
+        }
+    }
     // tile words against tileset flag words and cel bitmask layouts: marker values, ids at and beyond the tile count
     for (fi, fmt) in fmts.iter().enumerate() {
         for tsflags in [2u32, 6, 2 | 8, 0xFFFF_FFFE] {
@@ -778,6 +794,28 @@ pub fn m6() -> InputFam {
         }),
     ));
     makers.push((
+        "65535 tags, each with a user-data record, and one record more".into(),
+        Box::new(|| {
+            let mut f = gen::file(2, 2, &Fmt::Rgba, &[1]);
+            f.frames[0].push(tags((0..65535u32).map(|i| Tag::new("t", 0, 0, (i % 3) as u8)).collect()));
+            for i in 0..65536u32 {
+                f.frames[0].push(Body::UserData(UserData::color([i as u8, (i >> 8) as u8, 1, 255])));
+            }
+            f.encode()
+        }),
+    ));
+    makers.push((
+        "65535 tags, each with a user-data record".into(),
+        Box::new(|| {
+            let mut f = gen::file(2, 2, &Fmt::Rgba, &[1]);
+            f.frames[0].push(tags((0..65535u32).map(|i| Tag::new("t", 0, 0, (i % 3) as u8)).collect()));
+            for i in 0..65535u32 {
+                f.frames[0].push(Body::UserData(UserData::color([i as u8, (i >> 8) as u8, 1, 255])));
+            }
+            f.encode()
+        }),
+    ));
+    makers.push((
         "100000 slices".into(),
         Box::new(|| {
             let mut f = gen::file(2, 2, &Fmt::Rgba, &[1]);
@@ -845,7 +883,7 @@ pub fn m6() -> InputFam {
     let _ = fmt;
     let makers = Arc::new(makers);
     let m2 = makers.clone();
-    InputFam { name: "M6-scale".into(), what: "large well-formed structures within an 8 MiB input cap: 65535 empty frames; 65535 flat layers; 65534 siblings under one group (quadratic parent search); a 65535-deep nesting chain; 65535 tags; 100,000 slices; 1,000,000 ignorable chunks in one frame; 65535 linked cels; a 2000 x 2000 frame-by-layer table with one cel per frame on the top layer; 100 maximal user-data texts; a 1,000,000-entry palette".into(), n: makers.len(), gen: Box::new(move |i| (makers[i].1)()), label: Box::new(move |i| m2[i].0.clone()) }
+    InputFam { name: "M6-scale".into(), what: "large well-formed structures within an 8 MiB input cap: 65535 empty frames; 65535 flat layers; 65534 siblings under one group (quadratic parent search); a 65535-deep nesting chain; 65535 tags; 65535 tags each with a user-data record, with and without one record more; 100,000 slices; 1,000,000 ignorable chunks in one frame; 65535 linked cels; a 2000 x 2000 frame-by-layer table with one cel per frame on the top layer; 100 maximal user-data texts; a 1,000,000-entry palette".into(), n: makers.len(), gen: Box::new(move |i| (makers[i].1)()), label: Box::new(move |i| m2[i].0.clone()) }
 }
 
 /// prefixes of the bases (shared with C13) — for C04/C05 only "no panic / usable if it loads"
